@@ -421,6 +421,7 @@ func (r *transport) serveFromCache(
 		//Qualified no-cache: may serve from cache with fields stripped
 		for field := range noCacheFieldsSeq {
 			stored.Data.Header.Del(field)
+			stored.Data.Trailer.Del(field) // a field sent as a trailer is replayed as one
 		}
 	}
 	internal.SetAgeHeader(stored.Data, r.clock, freshness.Age)
@@ -475,6 +476,7 @@ func (r *transport) handleStaleWhileRevalidate(
 		// Qualified no-cache: the nominated fields must not be replayed without validation
 		for field := range noCacheFieldsSeq {
 			stored.Data.Header.Del(field)
+			stored.Data.Trailer.Del(field) // a field sent as a trailer is replayed as one
 		}
 	}
 	internal.SetAgeHeader(stored.Data, r.clock, freshness.Age)
